@@ -662,6 +662,7 @@ proof fn lemma_spliced_covered(c: Seq<u8>, o: CList, n: CList, p: int, lo: int, 
 }
 
 //@extract fn bigtools/src/bed/indexer.rs parse_line
+//@rule R16
 //@sub /s: &str/ => s: &LineBuf
 //@sub /Option<String>/ => Option<Name>
 //@sub /io::Error/ => IoError count=1
@@ -678,6 +679,7 @@ proof fn lemma_spliced_covered(c: Seq<u8>, o: CList, n: CList, p: int, lo: int, 
 //@end
 
 //@extract fn bigtools/src/bed/indexer.rs do_index
+//@rule R16
 //@rule R6
 //@sub /BufReader<File>/ => VLines
 //@sub /IndexList<\(u64, String\)>/ => CList
@@ -864,6 +866,7 @@ proof fn lemma_spliced_covered(c: Seq<u8>, o: CList, n: CList, p: int, lo: int, 
 //@end
 
 //@extract fn bigtools/src/bed/indexer.rs index_chroms
+//@rule R16
 //@rule R8
 //@sub /\n    fn parse_line\(.*?\n    \}\n/ => \n
 //@sub /\n    fn do_index\(.*?\n    \}\n/ => \n
@@ -911,6 +914,7 @@ proof fn lemma_spliced_covered(c: Seq<u8>, o: CList, n: CList, p: int, lo: int, 
 
 // ---- epilogue of index_chroms: `let mut chroms: Vec<_> = chroms.drain_iter().collect(); ... Ok(Some(chroms))` ----
 //@extract fn bigtools/src/bed/indexer.rs index_chroms
+//@rule R16
 //@presub /\A.*\n([ \t]*let mut chroms: Vec<_> = chroms\.drain_iter\(\)\.collect\(\);.*\n[ \t]*Ok\(Some\(chroms\)\)\n)\}\s*\Z/ => pub fn finish_index(chroms: CList) -> Result<Option<Vec<Entry>>, IoError> {\n\1} min=1 count=1
 //@sub /chroms\.drain_iter\(\)\.collect\(\)/ => drain_collect(chroms) min=0
 //@sub /(\w+)\.dedup_by_key\(\|(\w+)\| \2\.1\.clone\(\)\);/ => dedup_by_name(&mut \1); min=0
